@@ -10,7 +10,7 @@ from ..runner import Outcome, Part
 
 ID = "C14"
 TITLE = "Pressure drop is non-negative, additive and step-size independent"
-TECHNIQUE = "property-based testing (Hypothesis): generated constant-property assemblies with spacer grids placed on and between axial planes (dyadic, decimal, unit-converted positions), swept with several step sizes; closed-form oracle f L rho v^2/(2 De) + n K rho v^2/2 + rho g L with independently computed v, De and grid count"
+TECHNIQUE = "property-based testing (Hypothesis): generated constant-property assemblies with spacer grids placed on and between axial planes (dyadic, decimal, unit-converted positions), swept with several step sizes; closed-form oracle f L rho v^2/(2 De) + n K rho v^2/2 + rho g L with independently computed v, De and grid count; the same closed forms for every assembly of generated cores with several positions per type"
 RULE = ("generated single assemblies (2-5 rings, 1-2 ducts, all friction correlations, gravity on/off, 0-2 unrodded "
         "regions, 0-5 spacer grids whose positions are drawn on exact planes of the coarse mesh, on planes of the "
         "refined mesh only, and at generic positions), each swept with 3 step sizes (s, s/2, 0.77 s).  Non-trivial: at "
